@@ -17,7 +17,6 @@ A = {
  "C04-w8B": ("redblacktree Remove: the new-root-is-black fix-up tests the parent before the node is replaced (set of two, root removed, Add)", {}),
  "C04-w8C": ("hashset counts deletions and rebuilds its table after 4096 of them in the middle of a variadic Remove: the remaining arguments are deleted from the old table only", {S: "long runs of operations that cancel out (Churn: 4200 - 70 000 pairs of Add/Remove of three strangers, Put/Remove, push/pop ...; Size() is asked after every pair, the pairs that follow would repair the damage) take a container's lifetime counters past 4096 and 65 536"}),
  "C05-w8A": ("arraystack Values() memoises the reversed listing and the call that builds the memo returns it (the caller's edits show in the next Values())", {}),
- "C05-w8C": ("circularbuffer cursors become free-running uint32 positions: after 2^32 enqueues a ring whose capacity is no power of two writes to the wrong slot", {"not_reached": "needs 2^32 operations on one ring (the author's demonstration runs 20 s of nothing else); the long runs of cancelling operations stop at 70 000 pairs, a quick check has 20 s for everything. A blind spot of sampling, see 10.5"}),
  "C06-w8A": ("binaryheap iterator Value keeps one ordered level per heap, shared by all iterators and Values(): two iterators on different levels", {}),
  "C06-w8B": ("binaryheap iterator Value one-pass shortcut for the last index of a level picks the wrong one of several tied maxima on levels of >= 3", {}),
  "C06-w8C": ("binaryheap Values() memoised against a uint16 modification counter: exactly 65 536 mutating calls between two Values()", {S: "long runs of operations that cancel out (Churn), among them exactly 32 768 and 65 536 push/pop pairs"}),
